@@ -43,4 +43,16 @@ func init() {
 	add("C15", " Every entry of every known message (hosted by a container or not) declared with each of the 17 base types at that type's element size, twice that, the entry's natural size and a 24-byte form, both byte orders: whatever the definition check admits, no reflection access may fail (a rejection is fine).")
 	add("C17", " Through the decoder also: every sint16 and every sint8 value as position_lat / position_long, both byte orders (the coordinate is the sign-extended value; the narrow types' own sentinels carry no demand).")
 	add("C18", " Every single-file case with two or more messages is decoded once more with all messages on one local type (each definition replacing the previous one) under compressed-timestamp headers: a source or destination kept across the redefinition shows as a field the stream does not carry.")
+	for _, id := range []string{"C05", "C06"} {
+		add(id, " Long message slices: activity records with one field set in a single message at index 254, 255, 256, 4095, 4096, 4097, 8192, 8193, 65535, 65536 (as the last message, and followed by two more), every other message slice of every file type at indices 255 and 4096 (thorough: more).")
+	}
+	add("C16", " Long runs: units of the mix family with unknown messages, unknown fields and developer data repeated 256, 257, 4097 (some 65537; thorough more) times under every option configuration — content, error, bytes consumed and the exact counts from the independent parser.")
+	add("C18", " (E) long record runs: 256, 257, 1365, 1366, 4097 and 70 000 records cycling through the source-carrying variants, in one file.")
+	add("C01", " (m) long runs: 513 and 4097 repetitions of redefinition units of the mix family (a definition on a second local type staying live across them) through Decode, DecodeChained and Decode with all options.")
+	add("C15", " Long runs of 513 and 4097 definitions in one file through the decoding calls: no failing reflection access.")
+	add("C10", " Long chains: 255, 256, 257, 4096, 4097, 5000 (thorough up to 65537) small valid files in one stream, identical and mixed: one File per member, each equal to the member decoded alone, whole input consumed.")
+	add("C07", " Long runs (4097 ... 65537 records, re-encoded sizes above 64 KiB) through the generations.")
+	add("C14", " 70 000 hashers alive at once: each starts at zero, is fed its own data in an interleaved order and ends with the reference checksum of its own data.")
+	add("C17", " Late first fix: activities whose first 1023 ... 40000 (thorough 65537) records carry no time and position; the later records' values must come back from Encode / Decode.")
+	add("C11", " An 80 KiB activity (a decoder that changes its reading once 64 KiB were consumed): the offsets around every multiple of 32 KiB, every 1021st offset beyond 64 KiB and the last 40 offsets, all fault kinds and entry points.")
 }
